@@ -9,8 +9,10 @@ for d in sorted(glob.glob(os.path.join(root, "seeded", "*"))):
     summ = re.sub(r"\s+", " ", m.get("summary", ""))[:230]
     needs = re.sub(r"\s+", " ", m.get("needs", ""))[:200]
     note = m.get("note", "")
-    caught = ", ".join(m.get("caught_by", [])) or "MISSED"
+    caught = ", ".join(m.get("caught_by", [])) or "none"
     first = "after strengthening" if note.startswith("missed at first") else "as built"
+    if not m.get("caught_by"):
+        first = "on purpose: judged outside the statement, see meta.json"
     rows.append(f"| {name} | {', '.join(os.path.basename(f) for f in m.get('files', []))} | {summ} | {needs} | {caught} ({first}) |")
 hand = """
 Hand-made changes applied while the checks were built (each killed by the quick tier, then reverted):
